@@ -53,6 +53,9 @@ type runSpec struct {
 	Args      []argSpec `json:"args"`
 	Stdin     bool      `json:"stdin"`
 	Dash      bool      `json:"dash"` // stdin named explicitly with "-"
+	// StdinFrom: standard input is redirected from this path of the tree ("." = the tree's root directory, so that the
+	// first read fails with EISDIR; a file: its bytes, and under strace the fault below hits the reads of fd 0)
+	StdinFrom string `json:"stdin_from,omitempty"`
 	// strace fault (thorough): read K (and, if Persistent, all later ones) on Target fails with EIO
 	Target     string `json:"target,omitempty"`
 	When       int    `json:"when,omitempty"`
@@ -867,6 +870,17 @@ func runStdin(e *env, r *run.Rand) {
 	}
 	ms, _ := e.expand(s, data)
 	e.exec(s, data, ms, nil, false)
+
+	// standard input that fails while being read: a directory on fd 0 (read gives EISDIR). It is one input like any
+	// other: counted as a read error, exit status 2, nothing delivered.
+	s2 := *s
+	s2.StdinFrom = "."
+	s2.Dash = !s.Dash
+	argv := append([]string{e.c.RareBin}, s2.argv(e.root)...)
+	e.ri++
+	res := spawnFrom(argv, e.root, append(os.Environ(), "GOTRACEBACK=all", "VERIF_POINTS="), nil, nil, e.root, true, spawnLimit)
+	e.judge(&s2, []mention{{src: "<stdin>", isFile: true, err: true, fault: "eisdir"}}, nil, true, res)
+	e.c.Count("stdin_failing_runs", 1)
 }
 
 // ---------------------------------------------------------------- strace: EIO injected into the reads of one input
@@ -894,6 +908,10 @@ func runStrace(e *env, r *run.Rand) {
 	id := t.nextID + 1
 	var rel string
 	mode := r.Intn(3) // 0 plain without -z, 1 gzip with -z, 2 plain with -z (probe, seek back)
+	viaStdin := r.Intn(4) == 0 // the failing input is standard input (redirected from the target file)
+	if viaStdin {
+		mode = 0
+	}
 	switch mode {
 	case 0:
 		s.Gunzip = false
@@ -930,6 +948,9 @@ func runStrace(e *env, r *run.Rand) {
 	args = append(args[:pos:pos], append([]argSpec{targ}, args[pos:]...)...)
 	s.Args = args
 	s.Target = rel
+	if viaStdin {
+		s.Args, s.Stdin, s.StdinFrom, s.Dash = nil, true, rel, r.Bool()
+	}
 	if err := t.materialise(e.root); err != nil {
 		c.Inconclusive("materialise: " + err.Error())
 		return
@@ -943,6 +964,11 @@ func (e *env) straceRun(s *runSpec) (pattern string) {
 	c := e.c
 	e.ri++
 	ms, ok := e.expand(s, nil)
+	if s.StdinFrom != "" {
+		m := mention{src: "<stdin>", rel: s.Target, isFile: true}
+		fillLines(&m, e.t.byPath[s.Target].raw, false)
+		ms, ok = []mention{m}, true
+	}
 	if !ok {
 		c.Inconclusive("strace: model cannot decide its own arguments")
 		return ""
@@ -962,7 +988,12 @@ func (e *env) straceRun(s *runSpec) (pattern string) {
 	if s.Procs > 0 {
 		envv = append(envv, "GOMAXPROCS="+strconv.Itoa(s.Procs))
 	}
-	res := spawn(argv, e.root, envv, nil, nil, false, spawnLimit)
+	stdinPath := ""
+	if s.StdinFrom != "" {
+		stdinPath = abs
+		c.Count("strace_stdin_runs", 1)
+	}
+	res := spawnFrom(argv, e.root, envv, nil, nil, stdinPath, false, spawnLimit)
 	if res.startErr != nil {
 		if !c.Thorough() {
 			// the quick tier's other fault classes do not need a tracer: note it, do not void the run
@@ -994,6 +1025,9 @@ func (e *env) straceRun(s *runSpec) (pattern string) {
 
 	raw := e.t.byPath[s.Target].raw
 	src := filepath.Clean(s.Target)
+	if s.StdinFrom != "" {
+		src = "<stdin>"
+	}
 	ti := -1
 	for i := range ms {
 		if ms[i].rel == s.Target {
